@@ -693,7 +693,9 @@ fn fix_select_exec_n(s: &mut SelectSpec, o: ExecOpts, allow_with: bool, arity: O
     s.wheres = s.wheres.iter().map(|w| strip_aggs(&fx(w))).collect();
     // ---- grouping
     s.groups = s.groups.iter().map(|g| strip_aggs(&fx(g))).filter(|g| !matches!(g, E::Int(_) | E::Const(_) | E::Null | E::Bool(_) | E::ConstBool(_) | E::Text(_))).collect();
-    let mut items: Vec<Item> = s.items.iter().map(|it| Item { e: fx(&it.e), alias: it.alias, win: it.win.clone() }).collect();
+    // a text value as a whole select item stays (portable mode): it comes back as a row value, so the three backends' literal
+    // encodings are compared through the transliteration
+    let mut items: Vec<Item> = s.items.iter().map(|it| Item { e: if o.portable && matches!(it.e, E::Text(_)) { it.e.clone() } else { fx(&it.e) }, alias: it.alias, win: it.win.clone() }).collect();
     let grouped = !s.groups.is_empty() || items.iter().any(|it| it.win.is_none() && has_agg(&it.e)) || !s.havings.is_empty();
     let wrap = |e: E, groups: &[E]| -> E {
         if has_agg(&e) || groups.contains(&e) {
